@@ -161,14 +161,24 @@ var signatureTable = map[string]func(a aux) bool{
 			strings.Contains(a["panic"], "reflect.Value.SetLen using unaddressable value") && a["phase"] != "fatal"
 	},
 
-	// NEW (C02-bridged-define-guards.diff): length 2^32 on a bridged []int is a
-	// 32 GB reflect.MakeSlice: fatal out of memory.
-	"c02-goslice-length-huge": func(a aux) bool {
-		if a["phase"] != "fatal" || a["class"] != "out-of-memory" || a["site"] != "(*goSliceObject).setLength" {
+	// NEW (C02-bridged-define-guards.diff): the length of a bridged slice is not
+	// range-checked. 2^32 on a []int is a 32 GB reflect.MakeSlice (fatal out of
+	// memory); a negative length panics in reflect (Value.Slice index out of
+	// bounds once SetLen is replaced by reslicing, MakeSlice negative len).
+	"c02-goslice-length-out-of-range": func(a aux) bool {
+		if a["site"] != "(*goSliceObject).setLength" {
 			return false
 		}
-		return (a["kind"] == "go-slice" && a["accessor"] == "Object.Set(length,2^32)") ||
-			(a["bridged"] == "slice" && a["op"] == "set-2^32" && a["name"] == "length")
+		switch {
+		case a["phase"] == "fatal" && a["class"] == "out-of-memory":
+			return (a["kind"] == "go-slice" && a["accessor"] == "Object.Set(length,2^32)") ||
+				(a["bridged"] == "slice" && a["op"] == "set-2^32" && a["name"] == "length")
+		case a["phase"] == "call" && a["class"] == "string" &&
+			(strings.Contains(a["panic"], "reflect.Value.Slice: slice index out of bounds") || strings.Contains(a["panic"], "reflect.MakeSlice: negative len")):
+			return (a["kind"] == "go-slice" && a["accessor"] == "Object.Set(length,neg)") ||
+				(a["bridged"] == "slice" && a["op"] == "set-neg" && a["name"] == "length")
+		}
+		return false
 	},
 
 	// DESIGN #21 / F-C16-007 (C16 owns, C16-container-store-errors.diff): a
